@@ -92,6 +92,7 @@ type pathCtx struct {
 	cuts        []string
 	ufCalls     map[string][]ufCall
 	ghost       map[string]value // harness-visible per-path scratch
+	known       map[int]bool     // term id -> truth value already implied by the path condition
 	expectPanic []*regexp.Regexp
 	sizes       map[string]int
 }
@@ -202,6 +203,9 @@ func (pc *pathCtx) branch(cond *Term) bool {
 	if cond.op == OpConst {
 		return cond.val.Sign() != 0
 	}
+	if kv, ok := pc.known[cond.id]; ok {
+		return kv
+	}
 	if pc.pos < len(pc.prefix) {
 		d := pc.prefix[pc.pos]
 		side := d.C == 1
@@ -211,6 +215,7 @@ func (pc *pathCtx) branch(cond *Term) bool {
 		if !side {
 			c = pc.st.Not(cond)
 		}
+		pc.learn(cond, side)
 		pc.addConstraint(c)
 		return side
 	}
@@ -238,9 +243,30 @@ func (pc *pathCtx) branch(cond *Term) bool {
 		td.C = 0
 	}
 	pc.noteDecision(td)
+	pc.learn(cond, side)
 	pc.pcs = append(pc.pcs, taken)
 	pc.solver.Assert(taken)
 	return side
+}
+
+// learn records literals implied by taking `side` of cond.
+func (pc *pathCtx) learn(cond *Term, side bool) {
+	if pc.known == nil {
+		pc.known = make(map[int]bool)
+	}
+	pc.known[cond.id] = side
+	if cond.op == OpBNot {
+		pc.learn(cond.args[0], !side)
+		return
+	}
+	if cond.op == OpBAnd && side {
+		pc.learn(cond.args[0], true)
+		pc.learn(cond.args[1], true)
+	}
+	if cond.op == OpBOr && !side {
+		pc.learn(cond.args[0], false)
+		pc.learn(cond.args[1], false)
+	}
 }
 
 // choose makes an n-way decision that needs no solver.
